@@ -262,9 +262,34 @@ def r05_3(ctx, g, helpers):
                         ctx.violated("R05.3", h.where(loop), verdict, key_of(h, f"skipped-prefix:{norm(loop.iter)}"))
                 else:
                     ctx.holds("R05.3", h.where(loop), "the search examines every indexed node of the contig" + (" (it stops only at a node that starts beyond the region end; the list is sorted by start)" if brk else ""))
-        for r in comp:
+        comp_assign = [st.value for st in walk_own(h.node) if isinstance(st, ast.Assign) and norm(st.targets[0]) == res and isinstance(st.value, ast.ListComp)]
+        for lc in [r.value for r in comp] + comp_assign:
             n_sites += 1
-            ctx.violated("R05.3", h.where(r), "list-comprehension result: idiom not analysed", key_of(h, "listcomp"))
+            gen = lc.generators[0] if len(lc.generators) == 1 else None
+            if gen is None or norm(lc.elt) != norm(gen.target):
+                raise AnalysisError("R05.3", h.where(lc), "list-comprehension result of an unrecognised shape")
+            elem = norm(gen.target)
+
+            def atom_c(e, elem=elem, qs=qs, qe=qe):
+                t = norm(e)
+                return {f"{elem}[2]": "s", f"{elem}[3]": "e", qs: "qs", qe: "qe"}.get(t)
+
+            bad = None
+            rows = 0
+            for env, scale in ordtab.weak_orderings(["s", "e", "qs", "qe"], []):
+                if not (env["s"] < env["e"] and env["qs"] <= env["qe"]):
+                    continue
+                rows += 1
+                try:
+                    kept = all(ordtab.Evaluator(env, atom_c, scale).truth(c) for c in gen.ifs)
+                except ordtab.Unsupported as ex:
+                    raise AnalysisError("R05.3", h.where(lc), f"comprehension filter outside the comparison fragment: {ex}")
+                want = env["s"] <= env["qe"] and env["qs"] < env["e"]
+                if kept != want:
+                    bad = {"ordering": order(env), "problem": "a node under the region is not returned" if want else "a node that does not intersect the region is returned"}
+                    break
+            ctx.check(bad is None, "R05.3", h.where(lc), f"`{elem}` enters a region's result exactly when its interval [start,end) intersects the inclusive region [a,b] (start <= b and a < end), on all orderings", key_of(h, f"region-filter:{bad['ordering'] if bad else ''}:{bad['problem'] if bad else ''}"), rows=rows, **({"witness": bad} if bad else {}))
+            ctx.check(norm(gen.iter) == lst, "R05.3", h.where(lc), "the search examines every indexed node of the contig", key_of(h, f"partial-scan:{norm(gen.iter)}"))
     ctx.require_count("R05.3", n_sites, 1, g.where(), "insertions of indexed nodes into a region's result")
     if partial and not any(i.verdict == "violated" and i.rule == "R05.3" for i in ctx.instances):
         h, loop = partial[0]
@@ -376,10 +401,14 @@ def r05_4(ctx, v, g, helpers):
     if ok:
         idx = {norm(e.slice) for e in trip.elts if isinstance(e, ast.Subscript)}
         ok = len(idx) == 1
+        # a bare name in the contig position must be the loop's own contig variable
+        names = [e for e in trip.elts if isinstance(e, ast.Name)]
+        loop_vars = {norm(x) for x in (region_loop.target.elts if isinstance(region_loop.target, ast.Tuple) else [region_loop.target])}
+        ok = ok and all(nm.id in loop_vars for nm in names)
     ctx.check(ok, "R05.4", g.where(call), "the search receives contig, start and end of one and the same region", key_of(g, f"search-args:{norm(trip)}"))
     # the per-contig list: all index keys of that contig (tuple keys), sorted by start
-    filt = [n for n in walk_own(g.node) if isinstance(n, ast.Lambda) and "[1] ==" in norm(n.body)]
-    ctx.check(len(filt) == 1, "R05.4", g.where(), "the nodes searched for a region are the index entries of the region's contig", key_of(g, "contig-filter"))
+    filt = [n for n in walk_own(g.node) if isinstance(n, ast.Compare) and len(n.ops) == 1 and isinstance(n.ops[0], ast.Eq) and isinstance(n.left, ast.Subscript) and const_value(n.left.slice) == 1 and isinstance(n.comparators[0], ast.Name)]
+    ctx.check(len(filt) == 1, "R05.4", g.where(), "the nodes searched for a region are the index entries of the region's contig (key position 1 == contig)", key_of(g, f"contig-filter:{[norm(x) for x in filt]}"))
 
 
 def r05_5(ctx, funcs, g):
